@@ -185,7 +185,39 @@ func gen(t *rapid.T) Case {
 		}
 		return op
 	})
-	return Case{Ops: rapid.SliceOfN(opGen, 1, 14).Draw(t, "ops")}
+	c := Case{Ops: rapid.SliceOfN(opGen, 1, 14).Draw(t, "ops")}
+	if rapid.IntRange(0, 3).Draw(t, "family") == 0 {
+		// two loaders on one path: loader A has seen X, the file changes behind its back, A stores X again
+		path := rapid.IntRange(0, 2).Draw(t, "fpath")
+		x, y := genSess(t), genSess(t)
+		behind := rapid.SampledFrom([]string{"storeFresh", "remove", "storeFresh+remove"}).Draw(t, "behind")
+		ops := []Op{{Kind: rapid.SampledFrom([]string{"storeA", "storeFresh"}).Draw(t, "first"), Path: path, S: x}, {Kind: "loadA", Path: path}}
+		if strings.Contains(behind, "storeFresh") {
+			ops = append(ops, Op{Kind: "storeFresh", Path: path, S: y})
+		}
+		if strings.Contains(behind, "remove") {
+			ops = append(ops, Op{Kind: "remove", Path: path})
+		}
+		ops = append(ops, Op{Kind: rapid.SampledFrom([]string{"storeA", "storeSameTick"}).Draw(t, "again"), Path: path, S: x}, Op{Kind: "loadFresh", Path: path}, Op{Kind: "loadA", Path: path})
+		// splice the directed core into the random history at a drawn position
+		at := rapid.IntRange(0, len(c.Ops)).Draw(t, "at")
+		c.Ops = append(append(append([]Op{}, c.Ops[:at]...), ops...), c.Ops[at:]...)
+		if len(c.Ops) > 20 {
+			c.Ops = c.Ops[:20]
+		}
+	}
+	// storing a value again that was stored (and possibly loaded) before: "last store wins" also when the value is not new
+	var earlier []*Sess
+	for i := range c.Ops {
+		if !strings.HasPrefix(c.Ops[i].Kind, "store") {
+			continue
+		}
+		if len(earlier) > 0 && rapid.IntRange(0, 2).Draw(t, "restore") == 0 {
+			c.Ops[i].S = earlier[rapid.IntRange(0, len(earlier)-1).Draw(t, "which")]
+		}
+		earlier = append(earlier, c.Ops[i].S)
+	}
+	return c
 }
 
 func record(c Case) {
@@ -213,6 +245,15 @@ func record(c Case) {
 			}
 			if len(op.S.Key) == 0 {
 				cls = append(cls, "key-empty")
+			}
+		}
+		if strings.HasPrefix(op.Kind, "store") {
+			for _, prev := range c.Ops[:i] {
+				if prev.S != nil && prev.S == op.S {
+					cls = append(cls, "store-of-an-earlier-value")
+					nt = true
+					break
+				}
 			}
 		}
 		if strings.HasPrefix(op.Kind, "load") && stores[op.Path] >= 2 {
